@@ -87,6 +87,16 @@ func runConfig(c *vf.Ctx, cs cfgSpec, s int, nblocks int) {
 		return
 	}
 	g := rig.NewGen(w, c.Rand("gen/"+name))
+	g.Balance = func(i int) *big.Int {
+		st, err := prod.GetState(w.Accts[i].Addr)
+		if err != nil {
+			return nil
+		}
+		b, _ := new(big.Int).SetString(st.Balance, 10)
+		return b
+	}
+	// the default mix plus transfers that empty an account down to a remainder around the base fee
+	g.Kinds = append(append([]string{}, rig.DefaultKinds...), "xfer-sweep", "xfer-sweep")
 	if cs.postlock {
 		// most accounts hold a stake and votes when the lock period ends
 		g.Kinds = []string{"stake", "stake", "stake", "votebp", "votedao", "xfer", "name", "stake-small", "xfer-self"}
